@@ -25,6 +25,12 @@ pub fn c16_c17(m: &mut Mon, w: &mut World, idx: usize) {
         m.rmodel = Some(std::rc::Rc::new(crate::refmodel::evaluate(&w.sc, &w.ids)));
     }
     let r = m.rmodel.clone().unwrap();
+    if std::env::var("VERIF_TRACE_R").is_ok() && idx == 0 {
+        eprintln!("R: supported={} why={} calls:", r.supported, r.why_unsupported);
+        for c in r.calls.iter() {
+            eprintln!("  R call {} at {} args {:?}", c.fname, c.peer, c.args);
+        }
+    }
     if m.on("C17") {
         // canon arguments are checked against the peer's own stores and the values' embedded origin: no R needed
         let reqs: Vec<(u32, interp::Req)> = w.runs[idx].out.reqs.iter().map(|(k, v)| (*k, v.clone())).collect();
